@@ -28,6 +28,11 @@ func TestC09(t *testing.T) {
 			}
 		}
 		nb := rapid.IntRange(2, scale(16, 40)).Draw(t, "nBlocks")
+		if sim.U(t, "longHistory", 4) == 0 {
+			// longer than the 24-block absence window: state that is rewritten only when a slot of the
+			// window comes round again must survive a restart as well
+			nb = rapid.IntRange(26, scale(60, 120)).Draw(t, "nBlocksLong")
+		}
 		for i := 0; i < nb; i++ {
 			// restart before this block? (possibly several times in a row)
 			// (never before the first committed block: InitChain leaves uncommitted validator-set
